@@ -9,9 +9,10 @@ into a normalised statement string (locals numbered by first declaration; types,
     `complete` = `v4.CompleteWithContext`; the goroutine sleeps then subscribes and only then
     registers the subscription (`AddUnsubscribable(SubscribeWithContext(…))` — `Cfg.hot = false`);
     `stepCtl`: `handout` = `v4.NextWithContext(subscriberCtx, ch)` (context.TODO() before fix commit cb2e183) after the `go` statement,
-    teardown `td1` = `v8.Unsubscribe()` before `td2` = `v7()`.
+    teardown `defer v7(); v8.Unsubscribe()` (fix commit 694a874): `td1` = `v8.Unsubscribe()`, then
+    `td2` = the deferred `v7()`, which runs whether `td1` returns or panics (`Cfg.upPanic`).
   * detachOn — the same producer without `complete`; consumer `range(ch){process…}` = `stepCons`
-    `recv`/`hold`; teardown `v10.Unsubscribe(); v9()`.
+    `recv`/`hold`; teardown `defer v9(); v10.Unsubscribe()` = `td1` then the deferred `td2`.
   * FromChannel — `for { select { case item, ok := <-in … ; case <-done: return } }` = `fstepCons`
     / `fstepQuit`; teardown `close(done)` = `closeDone`.
 A change of order or kind of these statements makes this `rfl` fail at `lake build` even when
